@@ -109,7 +109,7 @@ def step (u : Unit) (ws : List String) : Unit × String :=
       | some bal, some endow, some emit, some ev, some ending =>
         let e : Option Create.Ending := match ending with
           | "code" => some .code | "ef" => some .ef | "oversize" => some .oversize | "revert" => some .revert
-          | "invalid" => some .invalid | "stop" => some .stop | _ => none
+          | "invalid" => some .invalid | "stop" => some .stop | "storeoog" => some .storeoog | _ => none
         match e with
         | some e =>
           let (s, ok) := Create.create ⟨bal, 0, false, []⟩ endow ev emit e
